@@ -16,8 +16,8 @@
   Every constant / table / deciding expression comes from `GIV.Gen.TsLife` (regenerated from the
   source on every run).  Structural facts that the model cannot consume as a value (statement
   order, which channel operation is where) are collected in the `F…` classes at the end of each
-  section; the lemmas are proved under them and `GIV/Props/C04.lean`, `C17.lean` discharge them
-  by `rfl` from the generated file.  OS behaviour (signal delivery, process exit, wall clock) is
+  section; the lemmas are proved under them and `GIV/Props/C04.lean` discharges them by `rfl`
+  from the generated file.  OS behaviour (signal delivery, process exit, wall clock) is
   nondeterminism of the transition system, never a function.
 -/
 import GIV.Basic
